@@ -2,3 +2,21 @@ from symex import cstubs_dkg, stubs_dkg, cstubs
 TRUSTED = cstubs_dkg.TRUSTED + ['Fr_star_read_bytes and the byte/limb helpers are executed from LLVM IR on exact integer contracts'] 
 ASSUME = stubs_dkg.ASSUMPTIONS + ['round-synchronous delivery and reliable broadcast are encoded by the harness (each broadcast is handed to every honest instance in the same round)']
 SETUP = 'symex.setup_c:with_dkg'
+
+def lemma_cases(thorough, Case):
+    """contract lemmas: the REAL dkg_core.c routines behind the uninterpreted DKG layer, under the algebraic group model"""
+    import itertools
+    O = {'setup': 'symex.setup_c:with_galg'}
+    cs = []
+    for n in ((1, 2, 3, 4) if thorough else (1, 2, 3)):
+        digits = (0, 1, 2, 3) if n <= 2 or (thorough and n == 3) else (0, 1, 2)
+        for ks in itertools.product(digits, repeat=n):
+            kinds = sum(k << (2 * i) for i, k in enumerate(ks))
+            cs.append(Case('lemma_vector_n%d_k%s' % (n, ''.join(map(str, ks))), 'crypto', 'zzDKG_lemma_vector', [n, kinds], opts=dict(O)))
+    for (n, t) in ([(3, 1), (4, 2), (5, 2), (6, 3), (7, 3)] if thorough else [(3, 1), (4, 2)]):
+        cs.append(Case('lemma_algebra_n%d_t%d' % (n, t), 'crypto', 'zzDKG_lemma_algebra', [n, t], opts=dict(O)))
+    return cs
+
+LEMMA_BOUND = ('contract lemmas for the uninterpreted layer, run on the real dkg_core.c under the algebraic group model: G2_vector_read_bytes accepts a vector of n <= 3 (thorough 4) '
+               'entries exactly when every entry is in G2 (entries c*g2, c*g2+T, -(c*g2+T), identity; every combination, including parts outside G2 that cancel) and decodes / re-encodes it faithfully; '
+               'Fr_polynomial_image_write, E2_polynomial_images and G2_check_log agree: P(i+1)*g2 = Q(i+1), honest shares verify and no other value does, for (n,t) in {(3,1),(4,2)} (thorough up to (7,3)), all coefficients symbolic')
